@@ -342,7 +342,7 @@ def run_shard(ctx):
     def test(case):
         check_case(ctx, case)
 
-    runner.drive(ctx, test, ctx.n(2400, 50000))
+    runner.drive(ctx, test, ctx.n(7200, 80000))
 
 
 def replay(ctx, case):
